@@ -521,9 +521,38 @@ def _adjacent_differ(x):
     return any(x[i] != x[i + 1] for i in range(len(x) - 1))
 
 
+def check_very_long(c, L):
+    """Data-file sized buffers (beyond the 65536 positions the tag planes can tell apart): model + inverse laws.
+    The case only records the length; the content is a fixed pattern."""
+    x = bytes((i * 13 + (i >> 8) + (i >> 16) + L) % 256 for i in range(L))
+    case = {"op": "very_long", "len": L}
+    a = _call(c.encrypt.interleave, x, case, "interleave")
+    b = _call(c.encrypt.deinterleave, x, case, "deinterleave")
+    if a != m_interleave(x):
+        raise Violation("interleave_matches_weave", case, "weave model", "differs", f"length {L}")
+    if b != m_deinterleave(x):
+        raise Violation("deinterleave_matches_weave", case, "weave model", "differs", f"length {L}")
+    if _call(c.encrypt.deinterleave, a, case, "deinterleave") != x:
+        raise Violation("deinterleave_inverts_interleave", case, "x", "differs", f"length {L}")
+    if _call(c.encrypt.interleave, b, case, "interleave") != x:
+        raise Violation("interleave_inverts_deinterleave", case, "x", "differs", f"length {L}")
+    f = _call(c.encrypt.flip_msb, x, case, "flip_msb")
+    if f != m_flip(x):
+        raise Violation("flip_matches_model", case, "flip model", "differs", f"length {L}")
+    for m in (3, 256, 65536):
+        s = _call(c.encrypt.swap_multiples, x, case, "swap_multiples", m)
+        if s != m_swap(x, m):
+            raise Violation("swap_matches_run_reversal", case, "run-reversal model", "differs", f"length {L} multiple {m}")
+
+
 def _dispatch(c, case, res=None, prefix=""):
     """Runs the oracle for one JSON case; fills counters when `res` is given."""
     op = case["op"]
+    if op == "very_long":
+        check_very_long(c, case["len"])
+        if res is not None:
+            res.nontrivial(["very_long", case["len"]])
+        return
     if op == "weave_len":
         L = case["len"]
         check_weave_length(c, L)
@@ -603,7 +632,7 @@ def run_task(task):
                 for m in (0, 1, 3, 7, 256, -2):
                     jobs.append({"fn": "swap_multiples", "arg": x.hex(), "m": m})
             model = {"interleave": m_interleave, "deinterleave": m_deinterleave, "flip_msb": m_flip}
-            for flag in ("-O", "-OO", "first_use", "first_use", "first_use", "first_use"):
+            for flag in ("-O", "-OO", "-Werror", "first_use", "first_use", "first_use", "first_use"):
                 # "first_use": the jobs are the library's first calls in a fresh interpreter, from 8 threads at once
                 got = optrun.run(jobs, flag) if flag != "first_use" else optrun.run(jobs, "-B", threads=8)
                 for job, g in zip(jobs, got):
@@ -643,6 +672,10 @@ def run_task(task):
                         check_swap(c, x, m, {"op": "swap", "hex": x.hex(), "m": m})
                 res.evaluations += 1
                 res.nontrivial(["long", L])
+            return res
+        if kind == "very_long":
+            _dispatch(c, {"op": "very_long", "len": task["len"]}, res)
+            res.evaluations += 1
             return res
         if kind == "vectors":
             fs = {"interleave": (c.encrypt.interleave, ()), "deinterleave": (c.encrypt.deinterleave, ()),
@@ -719,6 +752,7 @@ def plan(tier, seed):
         tasks.append({"kind": "swap_pat", "m": m, "n_lo": PAT_MAXN - 1, "n_hi": PAT_MAXN - 1})
         tasks.append({"kind": "swap_pat", "m": m, "n_lo": 0, "n_hi": PAT_MAXN - 2})
     tasks += [{"kind": "vectors"}, {"kind": "flip"}, {"kind": "long"}, {"kind": "opt"}, {"kind": "threads"}]
+    tasks += [{"kind": "very_long", "len": L} for L in (131071, 131072, 131073, 200001, 262144, 262145, 1048576, 1048577)]
     return tasks
 
 
